@@ -113,6 +113,13 @@ def jobs():
     for w in ("break", "continue"):
         items = [(t.replace("WORD", w), r) for t, r in LOOPS]
         J.append({"name": "loops_" + w, "core": w + "-placement", "module": "checks.C05", "spec": "loops_" + w, "text": HEAD + BODY.replace("CORE", "__alt1(%s)" % alts([(ind(s), r) for s, r in items]))})
+    # the same shape rules for code that follows a `ret` in its block (unreachable code is still code: it is resolved and emitted)
+    after = BODY.replace("    CORE\n", "    if gv.v > 0 do\n        ret\n        CORE2\n    end\n    ret\n    CORE\n")
+    for n, items in [("field", FIELD), ("enum", ENUM), ("case", CASE), ("tuple", TUPLE)]:
+        J.append({"name": n + "@after_ret", "core": n + "(after ret)", "module": "checks.C05", "spec": n, "text": HEAD + after.replace("CORE2", "pr(2)").replace("CORE", "__alt1(%s)" % alts([(ind(s), r) for s, r in items]))})
+    J.append({"name": "blob_instantiation@after_ret_in_branch", "core": "blob-fields(after ret)", "module": "checks.C05", "spec": "blob_inst", "text": HEAD + after.replace("CORE2", "bi := __ealt1(%s)" % ealts(BLOB_INST)).replace("    CORE\n", "    pr(3)\n")})
+    items = [(t.replace("WORD", "break"), r) for t, r in LOOPS]
+    J.append({"name": "loops_break@after_ret", "core": "break-placement(after ret)", "module": "checks.C05", "spec": "loops_break", "text": HEAD + after.replace("CORE2", "pr(2)").replace("CORE", "__alt1(%s)" % alts([(ind(s), r) for s, r in items]))})
     J.append({"name": "start_type", "core": "start-type", "module": "checks.C05", "spec": "start", "text": HEAD + "start :: __ealt1(%s)\n" % ealts(START)})
     # `start` declared as an external (no body to look at): only `fn -> void` may be accepted
     J.append({"name": "start_external_result", "core": "start-type(external)", "module": "checks.C05", "spec": "start_ext_ret", "tys": ["void", "int", "str", "bool"], "text": "start : fn -> Ty__1 : external\n"})
